@@ -239,8 +239,19 @@ func (m *mrtWriter) loop(ctx context.Context) error {
 			if e.Init {
 				return nil
 			}
+			// The AS fields of the non-AS4 subtypes are 2 octets wide: an AS number that
+			// does not fit is AS_TRANS there, as in the OPEN of that session (RFC 6793).
+			peerAS, localAS := e.PeerAS, e.LocalAS
+			if !e.FourBytesAs {
+				if peerAS > 0xffff {
+					peerAS = bgp.AS_TRANS
+				}
+				if localAS > 0xffff {
+					localAS = bgp.AS_TRANS
+				}
+			}
 			// MRT encodes IP addresses and does not carry zone information.
-			mp, _ := mrt.NewBGP4MPMessage(e.PeerAS, e.LocalAS, 0, e.PeerAddress.WithZone(""), e.LocalAddress.WithZone(""), e.FourBytesAs, nil)
+			mp, _ := mrt.NewBGP4MPMessage(peerAS, localAS, 0, e.PeerAddress.WithZone(""), e.LocalAddress.WithZone(""), e.FourBytesAs, nil)
 			mp.BGPMessagePayload = e.Payload
 			isAddPath := e.Neighbor.IsAddPathReceiveEnabled(e.PathList[0].GetFamily())
 			subtype := mrt.MESSAGE
